@@ -106,7 +106,15 @@ fn bind_remotes<In: ExchangeData>(
     let mut incoming = listener.incoming();
     let mut connected_clients = 0;
     while connected_clients < num_clients {
+        #[cfg(feature = "verif")]
+        crate::verif::emit(&crate::verif::Event::NetIdle {
+            kind: crate::verif::NetThread::DemuxBind,
+        });
         let stream = incoming.next().unwrap();
+        #[cfg(feature = "verif")]
+        crate::verif::emit(&crate::verif::Event::NetBusy {
+            kind: crate::verif::NetThread::DemuxBind,
+        });
         let stream = match stream {
             Ok(stream) => stream,
             Err(e) => {
@@ -149,6 +157,10 @@ fn bind_remotes<In: ExchangeData>(
         }
     }
     drop(tx_broadcast); // Start all demuxes
+    #[cfg(feature = "verif")]
+    crate::verif::emit(&crate::verif::Event::NetIdle {
+        kind: crate::verif::NetThread::DemuxBind,
+    });
     for handle in join_handles {
         handle.join().unwrap();
     }
